@@ -90,10 +90,25 @@ def _world():
     sc.add_objects(G.dynamic_obstacle(6, 1.0 + PROBE, 0.5, shape=G.rect(2.0 + PROBE, 1.0 + PROBE),
                                       poses=[(2.0 + PROBE, 0.5, PROBE), (3.0 + PROBE, 0.5 + PROBE, -PROBE)]))
     sc.obstacle_by_id(6).initial_state.velocity = 12.0 + PROBE
+    sc.add_objects(_custom_obstacle(7, ("orientation", "velocity")))      # trajectory of custom states (attribute set A)
     goal = GoalRegion([CustomState(time_step=Interval(1, 5), position=G.rect(1.0, 1.0, (1.5, 0.5)),
                                    velocity=Interval(1.0 + PROBE, 2.0 + PROBE))])
     pps = PlanningProblemSet([PlanningProblem(9, G.init_state(0.5 + PROBE, 0.5, PROBE, v=3.0 + PROBE), goal)])
     return sc, pps
+
+
+def _custom_obstacle(oid, attrs):
+    """A dynamic obstacle whose trajectory consists of CustomState objects with exactly the attributes `attrs`."""
+    import numpy as np
+    from commonroad.prediction.prediction import TrajectoryPrediction
+    from commonroad.scenario.obstacle import DynamicObstacle, ObstacleType
+    from commonroad.scenario.state import CustomState
+    from commonroad.scenario.trajectory import Trajectory
+    from crv import gamma as G
+    vals = {"orientation": 0.25, "velocity": 3.5, "acceleration": 0.75, "yaw_rate": 0.5}   # (no fraction starting with 1: those are probe numbers)
+    sts = [CustomState(time_step=1 + i, position=np.array([5.0 + i, 0.5]), **{a: vals[a] for a in attrs}) for i in range(2)]
+    return DynamicObstacle(oid, ObstacleType.CAR, G.rect(2.0, 1.0), G.init_state(4.0, 0.5),
+                           TrajectoryPrediction(Trajectory(1, sts), G.rect(2.0, 1.0)))
 
 
 def _project(path, d_expected, nl_expected=1):
@@ -145,7 +160,14 @@ def _project(path, d_expected, nl_expected=1):
         tol = 10.0 ** (-d_expected) if out["fmt"] == "xml" else 1e-12
         o6 = sc2.obstacle_by_id(6)
         la1 = sc2.lanelet_network.find_lanelet_by_id(1)
-        ok = len(las) == nl_expected and len(sc2.obstacles) == 2 and abs(float(la1.right_vertices[0][0]) - PROBE) < tol \
+        customs_ok = True                                         # every custom-state obstacle keeps ITS attribute set
+        for oid, attrs in [(7, ("orientation", "velocity"))] + [(200 + k, ("orientation", "velocity", "acceleration", "yaw_rate"))
+                                                                   for k in range(2, nl_expected + 1)]:
+            st = sc2.obstacle_by_id(oid).prediction.trajectory.state_list[0]
+            customs_ok = customs_ok and all(getattr(st, a, None) is not None for a in attrs) \
+                and all(getattr(st, a, None) is None for a in ("acceleration", "yaw_rate") if a not in attrs)
+        ok = customs_ok and len(las) == nl_expected and len(sc2.obstacles) == 2 + nl_expected \
+            and abs(float(la1.right_vertices[0][0]) - PROBE) < tol \
             and len(pps2.planning_problem_dict) == out["pp"] and o6 is not None \
             and abs(o6.initial_state.velocity - (12.0 + PROBE)) < tol and abs(o6.initial_state.orientation) < tol \
             and abs(o6.prediction.trajectory.state_list[1].orientation + PROBE) < tol \
@@ -173,6 +195,8 @@ def execute(case):
                 from crv import gamma as G
                 nl += 1
                 sc.add_objects(G.lanelet(100 + nl, x0=PROBE + 3.0 * nl, y0=0.0, length=2.0))
+                # ... and gets an obstacle whose custom states carry MORE attributes than those written before
+                sc.add_objects(_custom_obstacle(200 + nl, ("orientation", "velocity", "acceleration", "yaw_rate")))
                 ev.append({"op": "edit", "nl": len(sc.lanelet_network.lanelets), "sig": "edit"})
                 continue
             if a["op"] == "new":
